@@ -55,6 +55,7 @@ var c06Others = []struct {
 	{"kind-conflict", "gauge total\n/./ {\n  total = 1\n}\n", "refused"},
 	{"broken", "counter total\n/./ {\n  total++\n", "compile-error"},
 	{"runtime-errors", "counter total\ncounter errs\n/^(?P<w>\\w+)/ {\n  total++\n  errs += strtol($w, 10)\n}\n", "loads"},
+	{"hidden-other-kind", "hidden gauge total\ncounter seen_h\n/./ {\n  total = 1\n  seen_h++\n}\n", "loads"},
 	{"hidden-same-name", "hidden counter total\ncounter visible\n/./ {\n  total++\n  visible = total\n}\n", "loads"},
 }
 
